@@ -1072,8 +1072,8 @@ namespace avel {
         vec4x64i arg_exponent = bit_shift_right<52>(vec4x64i{exponent_field});
 
         // Perform two multiplications such that they should never lead to lossy rounding
-        vec4x64i lower_bound0{vec4x64i{1} - arg_exponent};
-        vec4x64i upper_bound0{vec4x64i{1046} - arg_exponent};
+        vec4x64i lower_bound0{clamp(vec4x64i{1} - arg_exponent, vec4x64i{-2044}, vec4x64i{0})};
+        vec4x64i upper_bound0{vec4x64i{2046} - arg_exponent};
 
         vec4x64i extracted_magnitude = clamp(exp, lower_bound0, upper_bound0);
         exp -= extracted_magnitude;
